@@ -186,6 +186,102 @@ Definition ids_of (l : list (option (list rec))) : list (option (list N)) := map
 Definition prop_c11_b (rej : reject) (t : tree) (msgs : list msg) (r : rec) (files : list (option (list N))) : bool :=
   files_okb (ids_of (expected rej t (msgs ++ [(Fatal, r)]))) files.
 
+(* ---- histories with explicit flush() calls and RECONFIGURATION between two messages ----
+   The logger may be reconfigured while it runs (Pipeline::append / remove, SimplePipeline::sendToFile
+   on the logger or on an existing nested pipeline(), SortedPipeline::clearSinks): the handler tree the
+   fatal flush has to reach is the one that exists WHEN the fatal message is processed, whatever
+   flush() calls were made on earlier shapes of the tree. *)
+Inductive op :=
+  | OAppend (path : list nat) (h : tree)   (* append(h) / sendToFile(..) on the pipeline reached by [path] (handler indices) *)
+  | ORemove (path : list nat) (k : nat)    (* remove(handlers()[k]); a null entry is not removed (Pipeline::remove ignores null) *)
+  | OClearSinks (path : list nat).         (* clearSinks(): every Sink that is a direct handler of that pipeline *)
+Inductive event := EMsg (m : msg) | EFlush | EOp (o : op).
+
+Fixpoint remove_handler (k : nat) (l : list tree) : list tree :=
+  match l with
+  | [] => []
+  | x :: r => match k with
+              | O => match x with TNull => l | _ => r end
+              | S k' => x :: remove_handler k' r
+              end
+  end.
+Definition is_sink (t : tree) : bool := match t with TSink _ => true | _ => false end.
+Definition op_path (o : op) : list nat :=
+  match o with OAppend p _ | ORemove p _ | OClearSinks p => p end.
+Definition op_fun (o : op) : list tree -> list tree :=
+  match o with
+  | OAppend _ h => fun l => l ++ [h]
+  | ORemove _ k => remove_handler k
+  | OClearSinks _ => filter (fun x => negb (is_sink x))
+  end.
+(* apply [f] to the handler list of the pipeline reached by [path]; a path that does not lead to a
+   pipeline changes nothing *)
+Fixpoint walk (g : list tree -> list tree) (l : list tree) (i : nat) : list tree :=
+  match l with
+  | [] => []
+  | x :: r => match i with
+              | O => match x with TPipe l' => TPipe (g l') :: r | _ => l end
+              | S i' => x :: walk g r i'
+              end
+  end.
+Fixpoint at_path (f : list tree -> list tree) (path : list nat) (l : list tree) : list tree :=
+  match path with
+  | [] => f l
+  | i :: p => walk (at_path f p) l i
+  end.
+Definition apply_op (o : op) (t : tree) : tree :=
+  match t with TPipe l => TPipe (at_path (op_fun o) (op_path o) l) | _ => t end.
+
+(* one step of a run: a message, an explicit logger.flush() (SimplePipeline::flush), a reconfiguration *)
+Definition step cfg pol rej (t : tree) (e : event) : tree :=
+  match e with
+  | EMsg m => process_message cfg pol rej t m
+  | EFlush => root_flush cfg t
+  | EOp o => apply_op o t
+  end.
+Definition run_events cfg pol rej (t : tree) (evs : list event) : tree := fold_left (step cfg pol rej) evs t.
+Definition run_events_fatal cfg pol rej (t : tree) (evs : list event) (r : rec) : tree :=
+  process_message cfg pol rej (run_events cfg pol rej t evs) (Fatal, r).
+
+(* THE SPECIFICATION for such histories: the logger without any buffering.  Every sink keeps one list
+   (its file); a message appends its record to the file of every sink it reaches unless the device
+   rejects the write; flush() does nothing; a reconfiguration acts on the tree.  No configuration, no
+   policy, no flush appears in it. *)
+Definition settle (s : sink) : sink :=
+  {| sid := sid s; presize := presize s; broken := broken s; disk := disk s ++ buf s; buf := [] |}.
+Fixpoint tmap (f : sink -> sink) (t : tree) : tree :=
+  match t with TSink s => TSink (f s) | TPipe l => TPipe (map (tmap f) l) | _ => t end.
+Definition swrite (rej : reject) (s : sink) (m : msg) : sink :=
+  if rej (sid s) (snd m) then s
+  else {| sid := sid s; presize := presize s; broken := broken s; disk := disk s ++ [snd m]; buf := buf s |}.
+Fixpoint stwrite (rej : reject) (m : msg) (live : bool) (t : tree) : tree :=
+  match t with
+  | TSink s => TSink (if live then swrite rej s m else s)
+  | TPipe l => TPipe ((fix lw (l : list tree) (lv : bool) : list tree :=
+                         match l with
+                         | [] => []
+                         | x :: r => stwrite rej m lv x :: lw r (lnext m lv x)
+                         end) l live)
+  | _ => t
+  end.
+Definition settle_op (o : op) : op :=
+  match o with OAppend p h => OAppend p (tmap settle h) | _ => o end.
+Definition sstep (rej : reject) (t : tree) (e : event) : tree :=
+  match e with
+  | EMsg m => stwrite rej m true t
+  | EFlush => t
+  | EOp o => apply_op (settle_op o) t
+  end.
+Definition spec_run (rej : reject) (t : tree) (evs : list event) : tree := fold_left (sstep rej) evs (tmap settle t).
+(* what must be in the file of every file sink of the FINAL configuration after qFatal(r) *)
+Definition expected_ev (rej : reject) (t : tree) (evs : list event) (r : rec) : list (option (list rec)) :=
+  survivors (spec_run rej t (evs ++ [EMsg (Fatal, r)])).
+(* which sinks (by identity, depth-first) the final configuration has *)
+Definition final_sids (rej : reject) (t : tree) (evs : list event) : list N :=
+  map (fun sg => sid (fst sg)) (gsinks (spec_run rej t evs)).
+Definition prop_c11_ev_b (rej : reject) (t : tree) (evs : list event) (r : rec) (files : list (option (list N))) : bool :=
+  files_okb (ids_of (expected_ev rej t evs r)) files.
+
 (* ---- helpers for the driver ---- *)
 Definition fresh (id : N) (pre : bool) (brk : bool) : sink :=
   {| sid := id; presize := pre; broken := brk; disk := []; buf := [] |}.
